@@ -3,7 +3,9 @@
 Real urwid.Widget subclasses whose every row starts with a glyph unique to that row (so the
 slice offset is directly readable from a canvas), whose last column is a right-edge marker (so
 the width they were handed is readable too), selectable or not, with a configurable set of
-keys / mouse buttons they report as handled, logging every render / keypress / mouse_event call.
+keys / mouse buttons they report as handled, logging every render / keypress / mouse_event call that
+reaches them.  They are cached by CanvasCache like any ordinary widget (a no_cache spy below a ListBox
+triggers a CanvasCache dependency-tracking defect that belongs to C06, not to C20).
 
 All glyphs are single-column, non-combining code points (Latin Extended-A/B), disjoint from the
 ASCII letters used for generated Text content and from the scrollbar thumb/trough characters.
@@ -66,8 +68,6 @@ class _SpyBase(urwid.Widget):
 class RowSpy(_SpyBase):
     """flow widget: `n` rows whatever the width (n may be changed: content change)"""
 
-    no_cache = ["render", "rows"]  # every render call reaches the spy and is logged (the metaclass reads this per class)
-
     _sizing = frozenset([urwid.FLOW])
 
     def __init__(self, base, n, sel=False, keys=(), buttons=(), log=None, name="rowspy"):
@@ -90,8 +90,6 @@ class RowSpy(_SpyBase):
 
 class WrapSpy(_SpyBase):
     """flow widget: `n` unique cells laid out row-major, so rows = ceil(n / width) (non-increasing in width)"""
-
-    no_cache = ["render", "rows"]  # every render call reaches the spy and is logged (the metaclass reads this per class)
 
     _sizing = frozenset([urwid.FLOW])
 
@@ -118,8 +116,6 @@ class WrapSpy(_SpyBase):
 
 class FixedSpy(_SpyBase):
     """fixed widget of cols x nrows cells"""
-
-    no_cache = ["render", "rows"]  # every render call reaches the spy and is logged (the metaclass reads this per class)
 
     _sizing = frozenset([urwid.FIXED])
 
